@@ -33,6 +33,22 @@ HIST_ASSUME = ["all events of one vBucket are fed by one goroutine at a time (go
                "Layer-A fakes of couchbase.Client / metadata.Metadata / models.Consumer are the trusted base; the fake store writes per vBucket like the Couchbase backend"]
 
 CHECKS = {
+    "C11": dict(
+        level="exploration",
+        rule="child process per case. direct mode: real stream on interface-level fakes, 1..3 bursts of 1..5 notifications, each a direct "
+             "stream.Rebalance() call with its own membership value (fake discovery = latest value), placed by barriers during close (inside "
+             "CloseStream), during the delay (10..40 % of it, measured; cases whose placement came too late are discarded and counted), while "
+             "reopening (inside OpenStream: starts a new burst by the property's definition), or after; optional STREAM_END(closed) from inside "
+             "CloseStream; events fed while closed. bus mode: real dcp.Start() with dynamic membership, notifications published on the event bus "
+             "(zero delay). Oracle over the trace: per burst exactly one stop pair and one start pair, callbacks match the bracket grammar "
+             "BRS (BSStop ASStop)? ARS BRE BSStart ASStart ARE, reopen not earlier than the delay after the burst's last notification, "
+             "reopened range = most recent membership value, requested offsets = stored checkpoints, nothing delivered while closed, client never "
+             "stops or dies. Plus a stress unit: thousands of zero-delay rebalances under scheduling pressure must never close the stop channel "
+             "(schedule not owned by the harness). non-trivial = a burst of >= 2 notifications in >= 2 different states",
+        assumptions=["a notification repeating the membership in effect is filtered by the publishers (IsChanged) - checked with the publishers in C10",
+                     "placements inside the delay are trusted only if the follower really arrived before the reopen began (else discarded_timing)"],
+        units=[rapid("TestC11_Rebalance", 1, 1, 4, 16), plain("TestC11_Stress"), plain("TestC11_Fixed")],
+    ),
     "C13": dict(
         level="fault_enumeration",
         rule="every case runs the real dcp.Start()/Close() (VerifNewDcp hook) in a child process and delivers Close() - or a real SIGINT - in a "
